@@ -160,9 +160,57 @@ def run(ids, a):
     return 0
 
 
+def report(ids, a):
+    """Fold results.json into each meta.json ('confirmed', 'checked_with') and write README.md."""
+    res = load_results()
+    rows = []
+    for sid in ids:
+        d = os.path.join(SEEDED, sid)
+        meta = json.load(open(os.path.join(d, 'meta.json')))
+        r = res.get(sid, {})
+        v = r.get('verify', {})
+        meta['breaks'] = meta.get('property')
+        meta['confirmed'] = {
+            'patch_applies_to_HEAD': v.get('patch_applies'),
+            'test_suite_passes_with_patch': (v.get('suite_with_patch') or {}).get('rc') == 0,
+            'suite_tail': (v.get('suite_with_patch') or {}).get('tail'),
+            'demo_fails_with_patch': (v.get('demo_with_patch') or {}).get('rc') not in (0, None),
+            'demo_passes_without_patch': (v.get('demo_on_unchanged_tree') or {}).get('rc') == 0,
+            'how': 'tools/seeded.py verify: scratch git worktree of /repo HEAD under /tmp, '
+                   'git apply patch.diff, full test suite, demo.py <tree>; removed afterwards',
+        }
+        checks = r.get('checks', {})
+        meta['checked_with'] = {p: {'exit': c['rc'], 'tier': c['tier'], 'scale': c.get('scale'),
+                                    'first_report': (c.get('first') or [''])[0][:300],
+                                    'harness_error': c.get('harness_error') or None}
+                                for p, c in sorted(checks.items())}
+        caught = sorted(p for p, c in checks.items() if c['rc'] == 1)
+        meta['caught_by'] = caught
+        json.dump(meta, open(os.path.join(d, 'meta.json'), 'w'), indent=1, ensure_ascii=False)
+        own = checks.get(meta['property'], {})
+        rows.append((sid, meta['property'], meta.get('summary', '')[:110].replace('|', '/'),
+                     meta.get('needs', '')[:110].replace('|', '/'),
+                     'yes' if v.get('confirmed') else 'NO',
+                     ', '.join(caught) or ('-' if checks else 'not run'),
+                     (own.get('first') or [''])[0][4:90].replace('|', '/')))
+    with open(os.path.join(SEEDED, 'README.md'), 'w') as f:
+        f.write('# Seeded breaking changes\n\n'
+                'Each directory holds `patch.diff` (applies to /repo HEAD), `demo.py` (fails with '
+                'the patch, passes without), `meta.json` (property, what it needs to manifest, what '
+                'was run).  Written by independent sub-agents that saw only the property text and '
+                'a scratch worktree.  `tools/seeded.py verify|run|report` reproduces this table; '
+                'notes on the misses are in DESIGN.md §13.\n\n'
+                '| id | breaks | change | needs | confirmed | caught by (quick) | first report of own check |\n'
+                '|---|---|---|---|---|---|---|\n')
+        for row in rows:
+            f.write('| ' + ' | '.join(row) + ' |\n')
+    print(f'{len(rows)} seeded changes; README.md written')
+    return 0
+
+
 def main():
     ap = argparse.ArgumentParser()
-    ap.add_argument('cmd', choices=('verify', 'run'))
+    ap.add_argument('cmd', choices=('verify', 'run', 'report'))
     ap.add_argument('ids', nargs='*')
     ap.add_argument('--props', default=None)
     ap.add_argument('--all-props', action='store_true')
@@ -173,6 +221,8 @@ def main():
     ap.add_argument('--in-repo', action='store_true')
     a = ap.parse_args()
     ids = a.ids or sorted(d for d in os.listdir(SEEDED) if os.path.isdir(os.path.join(SEEDED, d)))
+    if a.cmd == 'report':
+        return report(ids, a)
     return verify(ids, a) if a.cmd == 'verify' else run(ids, a)
 
 
